@@ -69,17 +69,40 @@ type Es名前 struct {
 	N string `@Ident`
 }
 
+// the same user-implemented (Parseable) type captured in several places: one production, referenced several times
+type EsAmount struct{ N string }
+
+func (a *EsAmount) Parse(lex *lexer.PeekingLexer) error {
+	t := lex.Next()
+	if t.EOF() {
+		return participle.NextMatch
+	}
+	a.N = t.Value
+	return nil
+}
+
+type esTransfer struct {
+	From *EsAmount   `"from" @@`
+	To   *EsAmount   `"to" @@`
+	Step []*EsAmount `( "step" @@ )*`
+}
+
+// staticForbid: substrings the String() of a static case must not contain
+var staticForbid = map[string][]string{"static-parseable-twice": {"EsAmount2", "EsAmount3", "EsAmount1"}}
+
 // staticExpect: substrings the String() of a static case must contain
-var staticExpect = map[string][]string{"static-alias": {"<word>", "<number>*", "<ident>?", "<name>?"}}
+var staticExpect = map[string][]string{"static-alias": {"<word>", "<number>*", "<ident>?", "<name>?"},
+	"static-parseable-twice": {`"from" EsAmount "to" EsAmount ("step" EsAmount)*`}}
 
 var staticEbnf = map[string]struct {
 	root string
 	mk   func() (gengram.Built, error)
 }{
-	"static-embedded":      {"EsEmbedded", func() (gengram.Built, error) { return participle.Build[esEmbedded]() }},
-	"static-anon-two":      {"EsAnonTwo", func() (gengram.Built, error) { return participle.Build[esAnonTwo]() }},
-	"static-anon-rec":      {"EsAnonRec", func() (gengram.Built, error) { return participle.Build[esAnonRec]() }},
-	"static-unicode-names": {"EsGröße", func() (gengram.Built, error) { return participle.Build[EsGröße]() }},
+	"static-embedded":        {"EsEmbedded", func() (gengram.Built, error) { return participle.Build[esEmbedded]() }},
+	"static-anon-two":        {"EsAnonTwo", func() (gengram.Built, error) { return participle.Build[esAnonTwo]() }},
+	"static-anon-rec":        {"EsAnonRec", func() (gengram.Built, error) { return participle.Build[esAnonRec]() }},
+	"static-unicode-names":   {"EsGröße", func() (gengram.Built, error) { return participle.Build[EsGröße]() }},
+	"static-parseable-twice": {"EsTransfer", func() (gengram.Built, error) { return participle.Build[esTransfer]() }},
 	"static-alias": {"EsAlias", func() (gengram.Built, error) {
 		return participle.Build[esAlias](participle.Lexer(aliasDef{lexer.TextScannerLexer}))
 	}},
